@@ -109,6 +109,24 @@ def _make_service(fmt, mn, _t1, mx, _t2, stp, _t3, construct):
         accs = vtime.run_shared(_FetchOnly(FakeBleClient(sim))._async_fetch_gatt_database())
         ch = accs.aid(1).characteristics.iid(9)
         return ch.service, ch
+    if construct == "coap-database":
+        # the way a Thread accessory declares it: the PDU 09 database, decoded and turned into the model by the tree (Pdu09Database -> to_dict -> Accessories)
+        import struct
+
+        from aiohomekit.controller.coap.structs import Pdu09Database
+        from aiohomekit.model import Accessories
+        from vlib import refhap
+        fmt_byte, code = {"int": (0x10, "i"), "float": (0x14, "f")}[fmt]
+        items = [(0x04, (0xFF01).to_bytes(16, "little")), (0x05, struct.pack("<H", 9)), (0x0A, struct.pack("<H", 0x0030)), (0x0C, struct.pack("<BbHBH", fmt_byte, 0, 0x2700, 1, 0))]
+        if mn is not None and mx is not None:
+            items.append((0x0D, struct.pack("<" + code * 2, mn, mx)))
+        if stp is not None:
+            items.append((0x0E, struct.pack("<" + code, stp)))
+        svc_items = [(0x15, [(0x06, (0x43).to_bytes(16, "little")), (0x07, struct.pack("<H", 8)), (0x14, ("list", [[(0x13, items)]])), (0x0F, struct.pack("<H", 1))])]
+        raw = refhap.enc_struct([(0x18, ("list", [[(0x19, [(0x1A, struct.pack("<H", 1)), (0x16, ("list", [svc_items]))])]]))])
+        accs = Accessories.from_list(Pdu09Database.decode(raw).to_dict())
+        ch = accs.aid(1).characteristics.iid(9)
+        return ch.service, ch
     kw = {"format": fmt, "perms": ["pr", "pw"]}
     if mn is not None:
         kw["min_value"] = mn
@@ -138,7 +156,9 @@ def run_case(case, R):
     construct = case.get("construct", "kwargs")
     if construct == "ble-signature" and fmt == "float" and None not in (mn, mx, stp) and case.get("spec"):
         construct = "ble-signature-spec"
-    if construct in ("ble-signature", "ble-signature-spec"):
+    if construct == "coap-database" and fmt not in ("int", "float"):
+        construct = "ble-signature"          # (CoAP reports every integer format as "int": only that one and float are compared through this path)
+    if construct in ("ble-signature", "ble-signature-spec", "coap-database"):
         # representable in the wire format only: both bounds or none, integral and in range for integer formats, float32-exact for float
         import struct as _st
         ok = fmt != "bool" and (mn is None) == (mx is None)
@@ -347,7 +367,7 @@ def cases(draw):
         v = draw(st.one_of(st.booleans(), st.sampled_from([0, 1, 2, -1, 1.0, 0.0, "true", "false", "True", "FALSE", "on", "off", "yes", "no",
                                                            "y", "n", "t", "f", "1", "0", "2", "maybe", "", None, "1.0", b"1", float("nan")])))
         return {"fmt": fmt, "v": v, "via": via}
-    case = {"fmt": fmt, "via": via, "construct": draw(st.sampled_from(["kwargs", "kwargs", "assign", "assign-spec", "json", "ble-signature", "ble-signature"])),
+    case = {"fmt": fmt, "via": via, "construct": draw(st.sampled_from(["kwargs", "kwargs", "assign", "assign-spec", "json", "ble-signature", "ble-signature", "coap-database"])),
             "spec": draw(st.booleans()), "thread": draw(st.integers(0, 5)) == 0}
     if fmt == "float":
         mn = draw(st.sampled_from([None, None, 0, 0.0, 1, 10, 10.0, -100, 0.5, -2**31, 7.2, -50.5, 35]))
@@ -435,6 +455,18 @@ def enum_grid(tier):
             yield {"fmt": "float", "min": mn, "max": mx, "step": stp, "v": i / 4, "via": "build_update", "construct": "ble-signature"}
             # the same declaration on a type that has defaults of its own (10..38 step 0.1): what the accessory declares wins, zero included
             yield {"fmt": "float", "min": mn, "max": mx, "step": stp, "v": i / 4, "via": "build_update", "construct": "ble-signature", "spec": True}
+    # declarations as a Thread accessory makes them, partial ones included (a step without a range, a range without a step)
+    for fmt, shapes in (("int", [(None, None, 5), (0, 100, None), (0, 100, 5), (-40, 40, 10), (None, None, None)]),
+                        ("float", [(None, None, 0.5), (10.0, 30.0, None), (10.0, 30.0, 0.5), (None, None, 0.25), (0.0, 1.0, 0.25)])):
+        for mn, mx, stp in shapes:
+            for v in (-50, -41, -3, 0, 1, 2, 7, 8, 12.3, 21.3, 21.26, 29.9, 33, 99, 101, 1000, "7", 0.6):
+                yield {"fmt": fmt, "min": mn, "max": mx, "step": stp, "v": v, "via": "build_update", "construct": "coap-database"}
+    # integer formats whose limits arrive as JSON floats (IP accessories, restored entity maps): the result is an integer all the same
+    for construct in ("kwargs", "assign", "json"):
+        for fmt, mn, mx in (("uint8", 0.0, 100.0), ("int", -40.0, 40.0), ("uint16", 10.0, 1000.0), ("uint32", 0, 100.0), ("int", -40.0, 40)):
+            for stp in (None, 1, 5, 1.0):
+                for v in (-1000, -41, -40, -1, 0, 9, 10, 50, 100, 101, 250, 1000, 1001, 70000, "250", 250.0, True):
+                    yield {"fmt": fmt, "min": mn, "max": mx, "step": stp, "v": v, "via": "build_update", "construct": construct}
     # declared limits and steps that no double represents exactly, through every way metadata reaches the model
     for construct in ("kwargs", "assign", "json"):
         for mn, mx, stp in [(0, 2**64 - 1, None), (0, 2**64 - 1, 1), (0, 2**53 + 1, None), (2**60 + 1, 2**64 - 1, 2), (2**53 + 1, 2**62 + 3, None), (0, 2**63 + 1, 2**53 + 1)]:
@@ -447,6 +479,51 @@ def enum_grid(tier):
                 yield {"fmt": fmt, "min": None, "max": None, "step": stp, "v": g, "via": "check_convert_value"}
 
 
+def run_blob(case, R):
+    """data / tlv8 characteristics: a text value that is not valid for the format fails with FormatError and nothing else; a valid one passes unchanged."""
+    import base64
+
+    from vlib import refhap
+    fmt, v = case["fmt"], case["v"]
+    acc = Accessory(1)
+    svc = acc.add_service("0000FF00-0000-1000-8000-0026BB765291")
+    ch = svc.add_char(CHAR_TYPE, format=fmt, perms=["pr", "pw"])
+    try:
+        raw = base64.b64decode(v.encode(), validate=True)
+        valid = True
+        if fmt == "tlv8":
+            try:
+                list(refhap.tlv_walk(raw))
+            except Exception:  # noqa: BLE001
+                valid = False
+    except Exception:  # noqa: BLE001
+        valid = False
+    R.nt(not valid)
+    R.cls("blob:" + fmt, "valid" if valid else "invalid")
+    try:
+        res = check_convert_value(v, ch) if case.get("via") == "check_convert_value" else svc.build_update({ch.type: v})[0][2]
+    except FormatError:
+        if valid:
+            R.fail("C14.valid-input-raises", f"{fmt} value {v!r:.80} is valid, FormatError raised")
+        return
+    except Exception as e:  # noqa: BLE001
+        R.fail("C14.garbage-foreign-exception", f"{fmt} value {v!r:.80}: {type(e).__name__}: {e}", exc=type(e).__name__, fmt=fmt)
+        return
+    if res != v:
+        R.fail("C14.result-type", f"{fmt} value {v!r:.80} came back as {res!r:.80}")
+
+
+def enum_blob(tier):
+    import base64
+    good = [b"", b"\x01\x01\x02", b"\x01\x00", bytes([6, 1, 3, 255, 0, 1, 2, 9, 9]), bytes([1, 255]) + bytes(255) + bytes([1, 3, 1, 2, 3])]
+    bad_tlv = [b"\x01", b"\x01\x05\x00", bytes([6, 1, 3, 255]), bytes([1, 255]) + bytes(200), b"\x09\x02\x01"]
+    texts = [base64.b64encode(x).decode() for x in good + bad_tlv] + ["%%%", "AQ", "AQI", "A", "====", "AQID\n", "not base64!", "ä"]
+    for fmt in ("data", "tlv8"):
+        for v in texts:
+            for via in ("build_update", "check_convert_value"):
+                yield {"fmt": fmt, "v": v, "via": via}
+
+
 SPEC = Property(
     P, "exploration",
     rule=("format in {bool,uint8..uint64,int,float} x (min,max,step) none/partial/full (negative minima to -2^31, fractional steps, "
@@ -455,6 +532,7 @@ SPEC = Property(
           "grid, or magnitude > 1e6, or garbage. Distinct by canonical JSON of (format, min, max, step, input). Metadata reaches the model by constructor "
           "keywords, later assignment, JSON, or a HAP-BLE signature read by the tree's own GATT database fetch; one case in six converts on a fresh thread."),
     layers=[
+        Layer("blob-formats", run_blob, enumerate=enum_blob, exhaustive=True, space="data / tlv8 x 18 text values (valid, truncated TLV, broken base64) x 2 entry points", min_nontrivial=20),
         Layer("grid", run_case, enumerate=enum_grid, exhaustive=True,
               space="5 integer formats x 5 steps x 4 minima x 2 maxima x 39 inputs; 8 float range/step shapes x 1220 inputs; 29 garbage inputs x 6 formats", min_nontrivial=1000),
         Layer("generated", run_case, strategy=cases, n={"quick": 60000, "thorough": 3000000}, min_nontrivial=5000),
